@@ -108,6 +108,7 @@ def run(sim):
     coop_m = {"started": started, "stopped": False}
     tasks = []
     outstanding = {}   # did -> (Deferred, MT)
+    chained = {}       # did -> the called-but-pending Deferred that was actually yielded (waits on outstanding[did][0])
     st = {"did": 0, "ticks": 0, "pr": 0, "fired": 0, "stopped": 0, "coopstop": 0, "in_tick": False, "finops": 0}
 
     def scheduler(fn):
@@ -199,6 +200,14 @@ def run(sim):
             mt.waiting = did
             outstanding[did] = (d, mt)
             sim.probe("yielded_deferred")
+            if sim.draw_bool(0.25, "called_but_pending"):
+                # the yielded Deferred has already been called back, but its callback chain is waiting on `d`
+                # (`called` is true, there is no result yet): the task waits until `d` fires
+                sim.probe("yielded_deferred_called_but_waiting_on_another")
+                outer = defer.succeed("pre")
+                outer.addCallback(lambda _ignored: d)
+                chained[did] = outer
+                return outer
             return d
 
     # ---------------------------------------------------------------- helpers
@@ -387,7 +396,7 @@ def run(sim):
             else:
                 d.callback(None)
         leftover = []
-        d.addErrback(lambda f: leftover.append(f) and None)
+        chained.pop(did, d).addErrback(lambda f: leftover.append(f) and None)
         if late and fail:
             sim.fault("late_failure_after_stop")
             got = None
